@@ -226,10 +226,11 @@ func TestPropReuse(t *testing.T) {
 		for i := 0; i < n; i++ {
 			shape := 0
 			switch k := rapid.IntRange(0, 19).Draw(t, "shape"); {
-			case k == 19:
-				shape = shapeLong
-			case k >= 17:
+			case k == 19: // size classes: 5 % of the steps
 				shape = shapeDeep
+				if rapid.IntRange(0, 2).Draw(t, "sizeClass") == 0 {
+					shape = shapeLong
+				}
 			case k >= 13:
 				shape = 2
 			case k >= 8:
